@@ -1,5 +1,6 @@
 From AQ Require Import lib.Base model.Codec model.Varint model.RangeSet model.AckFrame model.Header.
-From AQ Require Import proofs.CodecProofs proofs.VarintProofs proofs.AckFrameProofs proofs.HeaderProofs.
+From AQ Require Import model.TlsCodec.
+From AQ Require Import proofs.CodecProofs proofs.VarintProofs proofs.AckFrameProofs proofs.HeaderProofs proofs.TlsCodecProofs.
 
 (* ---- variable-length integers (RFC 9000 section 16) ---- *)
 Theorem varint_roundtrip : forall v rest, 0 <= v < 2 ^ 62 ->
@@ -151,3 +152,33 @@ Theorem header_pull_total : forall hcl bs, bytes_ok bs ->
   end.
 Proof. exact HeaderProofs.header_pull_total. Qed.
 Print Assumptions header_pull_total.
+
+(* ---- TLS length-prefixed blocks (stretch) ---- *)
+Theorem pull_block_exact : forall (A : Type) cap (body : Z -> list Z -> Res (A * list Z)) bs v rest,
+  pull_block cap body bs = Ok (v, rest) ->
+  exists len b1, pull_be cap bs = Ok (len, b1) /\ body len b1 = Ok (v, rest) /\ Zlen b1 - Zlen rest = len.
+Proof. exact @TlsCodecProofs.pull_block_exact. Qed.
+Print Assumptions pull_block_exact.
+
+Theorem pull_block_mismatch : forall (A : Type) cap (body : Z -> list Z -> Res (A * list Z)) bs len b1 v b2,
+  pull_be cap bs = Ok (len, b1) -> body len b1 = Ok (v, b2) -> Zlen b1 - Zlen b2 <> len ->
+  pull_block cap body bs = Err E_ALERT_DECODE.
+Proof. exact @TlsCodecProofs.pull_block_mismatch. Qed.
+Print Assumptions pull_block_mismatch.
+
+Theorem opaque_roundtrip : forall cap d rest, Zlen d < 256 ^ Z.of_nat cap ->
+  exists bytes, enc_tv (TBlock cap [TBytes d]) = Ok bytes /\ pull_opaque cap (bytes ++ rest) = Ok (d, rest).
+Proof. exact TlsCodecProofs.opaque_roundtrip. Qed.
+Print Assumptions opaque_roundtrip.
+
+Theorem finished_roundtrip : forall d rest, Zlen d < 2 ^ 24 ->
+  exists bytes, enc_seq [TInt 1 20; TBlock 3 [TBytes d]] = Ok bytes /\
+    pull_finished (bytes ++ rest) = Ok (out_bytes d, rest).
+Proof. exact TlsCodecProofs.finished_roundtrip. Qed.
+Print Assumptions finished_roundtrip.
+
+Theorem ext_length_ignored_refuted :
+  pull_server_hello sh_lying_extension =
+    Ok (out_bytes (repeat 0 32) ++ [0] ++ [0x1301; 0] ++ [1; 0x0304; 0; 0] ++ [0], []).
+Proof. exact TlsCodecProofs.ext_length_ignored_refuted. Qed.
+Print Assumptions ext_length_ignored_refuted.
